@@ -70,9 +70,11 @@ type StepRecord struct {
 	HadSum   bool
 	Executed map[string]bool // packages the probe saw
 	Hload    map[string]string
-	Content  map[string]map[string]string
-	Local    []int
-	Direct   []int
+	// HashMaybeFailed: packages whose load-time hash an injected fault may have hit (nested directories).
+	HashMaybeFailed map[string]bool
+	Content         map[string]map[string]string
+	Local           []int
+	Direct          []int
 }
 
 // Exec executes one variant (a history) against one world.
